@@ -100,3 +100,10 @@ func (self *VerifJobManager) GetSettings() *JobManagerSettings {
 }
 func (self *VerifJobManager) resetMaxJobs()      {}
 func (self *VerifJobManager) reattach(*Metadata) {}
+
+// VerifDisableProcLimit drops the process-count semaphore, so that
+// refreshResources does not scan /proc for the user's processes on every
+// scheduler step (in-process test drivers step thousands of pipestances).
+func (self *LocalJobManager) VerifDisableProcLimit() {
+	self.procsSem = nil
+}
